@@ -25,6 +25,18 @@ type C19Case struct {
 	MaxFiles int `json:"max_files,omitempty"`
 	// MaxMemKB: address-space limit for the run (definitions that double with every level)
 	MaxMemKB int `json:"max_mem_kb,omitempty"`
+	// Rules: "" = a well-formed rules file; otherwise the text of a damaged one (update / compare must say so, not crash)
+	Rules string `json:"rules,omitempty"`
+}
+
+var c19DamagedRules = []string{
+	"    \"id:932100,\\\n    phase:2\"\n", // the id line is the first line of the file
+	"\"id:932100,\\\n",                    // nothing else
+	"",                                    // empty file
+	"# only a comment mentioning id:932100\n",
+	"SecRule ARGS \"@rx old\" \\\n",                                  // the rule ends after its first line
+	"SecRule ARGS \"@rx old\" \\\n    \"id:932100,\\\n    chain\"\n", // a chain that never continues
+	"SecRule ARGS \"@pm old\" \\\n    \"id:932100\"\n",
 }
 
 var hostile = []string{`\(?i:`, `\(?i:a`, `[(]?-s:`, `\x28?i:`, `(?:a\)|b)`, `[|]`, `\|`, `[\\]`, `\(?s)`, `\(?-s:.)`, `\(?m:^)`, `[(]?i:x)`, `\(?i:a|b)`, `(?:`, `)`, `(`, `[`, `]`, `{{`, `}}`, `{{x}}`,
@@ -65,7 +77,7 @@ func genC19(t *rapid.T) C19Case {
 				c.Files[fmt.Sprintf("include/f%d.ra", i)] = fb.String()
 			}
 		}
-		return c
+		return withDamagedRules(t, c)
 	}
 	g := ragen.GenProgram(t, ragen.GenOpt{
 		Rx:       ragen.RxOpt{Stress: 20, MaxDepth: 2},
@@ -159,7 +171,7 @@ func genC19(t *rapid.T) C19Case {
 	if g.Prog.Config != nil {
 		c.Files["toolchain.yaml"] = *g.Prog.Config
 	}
-	return c
+	return withDamagedRules(t, c)
 }
 
 func d3Excluded() bool { return openFinding("D3") }
@@ -192,6 +204,9 @@ func runC19(c C19Case, timeout time.Duration) cli.Result {
 	if c.Cmd != "" {
 		t["regex-assembly/932100.ra"] = c.Stdin
 		t["rules/REQUEST-932-X.conf"] = "SecRule ARGS \"@rx old\" \\\n    \"id:932100,\\\n    phase:2\"\n"
+		if c.Rules != "" {
+			t["rules/REQUEST-932-X.conf"] = strings.TrimPrefix(c.Rules, "\x00")
+		}
 	}
 	if err := t.Write(sb.Path("crs")); err != nil {
 		panic(err)
@@ -212,6 +227,19 @@ func runC19(c C19Case, timeout time.Duration) cli.Result {
 		return cli.Run(cli.Opt{Dir: sb.Root, Stdin: c.Stdin, Timeout: timeout, MaxFiles: c.MaxFiles, MaxMemKB: c.MaxMemKB}, append(args, "generate", "-")...)
 	}
 	return cli.Run(cli.Opt{Dir: sb.Root, Timeout: timeout, MaxFiles: c.MaxFiles, MaxMemKB: c.MaxMemKB}, args...)
+}
+
+// withDamagedRules gives one case in four of update / compare a damaged rules file.
+func withDamagedRules(t *rapid.T, c C19Case) C19Case {
+	if (c.Cmd == "update" || c.Cmd == "compare") && rapid.IntRange(0, 3).Draw(t, "damagedrules") == 0 {
+		r := rapid.SampledFrom(c19DamagedRules).Draw(t, "damagedrulesv")
+		if r == "" {
+			r = "\x00" // marks "the empty file" (an empty field means a well-formed file)
+		}
+		c.Rules = r
+		c.Kind += "+damaged-rules-file"
+	}
+	return c
 }
 
 func checkC19(c C19Case) Outcome {
